@@ -186,7 +186,9 @@ def finish_simple(prop, tier, seed, jobs, viols, t0, level, extra_cov=None):
 
 # --------------------------------------------------------------------------- C11
 def tl_inst(size, samples, fp, keyed, keys, cells, table=None, **kw):
-    t = table or ([0] * (keyed + 1) + [0, U64MAX, 1 << 32, (1 << 63) + 5, 12345678901234567, 3][:keys - keyed])
+    # raw hashes: 0, all ones, 2^32, 2^63+5, an arbitrary one, 3, and 0xFF80..0 (every doorkeeper probe in the LAST 64-bit
+    # word of a 512-bit filter: high part 511, low part 0)
+    t = table or ([0] * (keyed + 1) + [0xFF80000000000000, 0, U64MAX, 1 << 32, (1 << 63) + 5, 12345678901234567, 3][:keys - keyed])
     return dict(name='tlfu-n%d-s%d-k%d-fp%s' % (size, samples, keys, str(fp).replace('.', 'p').replace('-', 'm')), mc=dict(Keys=K(keys), Samples=samples, Cells=cells),
                 cfg={'size': size, 'samples': samples, 'fp': fp, 'keyed': keyed}, keys=keys, table=t, **kw)
 
@@ -515,6 +517,8 @@ def c16(tier, seed, replay):
     parts = []
     checks.run_list_prop('C16', tier, seed, collect=parts)
     insts = [dict(i, flags=['--clone'], random=None, extra_ops=None) for i in C11_INST[tier] if not i.get('random_only')]
+    # doorkeepers larger than the 512-bit minimum (samples >= 54 at fp 0.01) and a wide sketch
+    insts.append(dict(tl_inst(4096, 200, 0.01, 1, 2, 1), flags=['--clone'], random=(10, 120), max_states=400))
     run_simple('C16', tier, seed, 'tinylfu', 'MCTinyLFU', 'TinyLFUTrace', insts, collect=parts)
     jobs = [j for js, _ in parts for j in js]
     viols = [v for _, vs in parts for v in vs]
